@@ -56,6 +56,8 @@ def bounded_by_param(bi, operand, param, depth=0):
     if o.kind == "call":
         t = bi.call_at(o.data)
         n = t.callee.path.split("::")[-1]
+        if n in ("from", "into") and t.callee.path.startswith("std::convert::") and len(t.args) == 1:
+            return bounded_by_param(bi, t.args[0], param, depth + 1)     # From between integer types is lossless
         if n == "clamp" and len(t.args) == 3:
             lo = t.args[1].const_int()
             r = bounded_by_param(bi, t.args[0], param, depth + 1)
@@ -66,6 +68,8 @@ def bounded_by_param(bi, operand, param, depth=0):
             a, b = bounded_by_param(bi, t.args[0], param, depth + 1), bounded_by_param(bi, t.args[1], param, depth + 1)
             if a or b:
                 return True
+            if a is False and b is False:
+                return False        # the smaller of two quantities neither of which is bounded by the request
             return None
         if n == "max" and len(t.args) == 2 and any(x.const_int() is not None and x.const_int() <= 1 for x in t.args):
             # max(capacity, 1): "at most max(limit, 1) messages" is exactly the bound this rule states
